@@ -543,6 +543,7 @@ private:
     }
     _upgradeComplete.store(false);
     _closeEchoed.store(false); // re-arm the one-shot CLOSE echo for this connection
+    _recvClosed.store(false);  // a new connection consumes input again
 
     // Register the global callbacks on the LOCAL transport. Each weak-captures
     // the client (NEVER an owning shared_ptr<Transport> of its own _transport —
@@ -688,6 +689,11 @@ private:
     // Move-parse-callback pattern: buffer ops under lock, callbacks outside.
     // Same pattern as server's onUpgradedData to avoid deadlock.
 
+    if (_recvClosed.load())
+    {
+      return; // connection failed: input is discarded, not buffered
+    }
+
     // Step 1: append data and move buffer out under lock
     std::vector<std::uint8_t> localBuffer;
     {
@@ -792,11 +798,26 @@ private:
     std::size_t offset = 0;
     while (offset < localBuffer.size())
     {
+      if (_recvClosed.load())
+      {
+        return; // connection failed: input is discarded
+      }
       core::BufferView view(localBuffer.data() + offset,
                             localBuffer.size() - offset);
       std::size_t consumed = 0;
-      auto frame = WebSocketFrame::parse(view, consumed);
-      if (!frame) break;
+      WsParseStatus status = WsParseStatus::Incomplete;
+      auto frame = WebSocketFrame::parse(view, consumed, status);
+      if (!frame)
+      {
+        if (status == WsParseStatus::ProtocolError)
+        {
+          // Bytes that can never become a valid frame must not be kept as
+          // "incomplete": nothing behind them would ever be parsed.
+          failConnection(1002, "Protocol error", "Received malformed frame");
+          return;
+        }
+        break;
+      }
       offset += consumed;
 
       // handleFrame fires callbacks — must be outside lock
@@ -811,6 +832,23 @@ private:
         localBuffer.begin() + offset, localBuffer.end());
       remainder.insert(remainder.end(), _buffer.begin(), _buffer.end());
       _buffer = std::move(remainder);
+    }
+  }
+
+  /// \brief Fail the WebSocket connection (RFC 6455 Section 7.1.7): stop
+  /// consuming input, send a Close frame with the given code and report the
+  /// error. As in the regular close handshake the TCP connection is left for the
+  /// server to close (Section 7.1.1: the client SHOULD wait for the server), which
+  /// also lets everything queued before the Close frame reach the peer; the
+  /// transport's onClose then runs handleDisconnect().
+  void failConnection(std::uint16_t code, const std::string& reason,
+                      const std::string& error)
+  {
+    _recvClosed.store(true);
+    sendClose(code, reason);
+    if (_onError)
+    {
+      _onError(error);
     }
   }
 
@@ -1209,6 +1247,9 @@ private:
   // CLOSE is echoed, re-armed in doConnect() per connection. Replaces the dead
   // _state==CLOSING guard (CLOSING is never stored — it is a reserved state).
   std::atomic<bool> _closeEchoed{false};
+  // Set when the connection was failed (protocol error): all further input of
+  // this connection is discarded. Re-armed in doConnect() per connection.
+  std::atomic<bool> _recvClosed{false};
 
   // Fragment reassembly (protected by _dataMutex)
   std::vector<std::uint8_t> _fragmentBuffer;
